@@ -24,6 +24,18 @@ func genMessages(rt *rapid.T) []*pwr.SyncOp {
 	big := 1
 	for i := 0; i < n; i++ {
 		sz := rapid.SampledFrom(msgSizes).Draw(rt, "msgsize")
+		switch rapid.IntRange(0, 5).Draw(rt, "sizeclass") {
+		case 0:
+			// encoded size (2 bytes type + tag + length varint + payload) exactly at, or next to, a power of two
+			k := rapid.IntRange(7, 17).Draw(rt, "encpow")
+			over := 5
+			if 1<<k-5 >= 16384 {
+				over = 6
+			}
+			sz = 1<<k - over + rapid.IntRange(-1, 1).Draw(rt, "encd")
+		case 1:
+			sz = rapid.IntRange(0, 3000).Draw(rt, "anysize")
+		}
 		if big > 0 && rapid.IntRange(0, 39).Draw(rt, "huge") == 0 {
 			sz = rapid.SampledFrom([]int{4*MiB - 1, 4 * MiB, 4*MiB + 1, 5 * MiB}).Draw(rt, "hugesize")
 			big--
